@@ -64,6 +64,20 @@ def _expand(payload, sub):
         obs = {'step': 'printer', 'num_rows': rng.choice([1, 2, 10]), 'resources': sel}
     else:
         obs = ST.GENS[payload['observer']](rng, dpre, g)
+        if obs['step'] in ('dump_to_path', 'dump_to_zip') and rng.random() < 0.3:
+            # data files named after their content: two resources holding the same bytes (a duplicate, two empty resources) share a directory
+            obs['options'] = {'add_filehash_to_path': True}
+            names = dpre.names()
+            if len(set(names)) == len(names) and names and rng.random() < 0.6:
+                dup = {'step': 'duplicate', 'source': rng.choice(names), 'target': g.fresh('twin'), 'to_end': rng.random() < 0.5, 'batch_size': 1000}
+                trial = {'tables': sc['tables'], 'steps': sc['steps'][:npre] + [dup] + sc['steps'][npre:], 'source_kinds': sc.get('source_kinds')}
+                try:
+                    PL.describe(trial, {'calls': {}})
+                    sc['steps'] = trial['steps']
+                    npre += 1
+                    stats['motif:filehash-with-identical-resources'] = 1
+                except Exception:  # noqa
+                    pass
     # now and then a second file dumper further downstream, in the *other* format
     if obs['step'] in ('dump_to_path', 'dump_to_zip') and rng.random() < 0.35:
         other = {'csv': 'json', 'json': 'csv'}[obs.get('format', 'csv')]
@@ -193,7 +207,7 @@ class C05(Prop):
     ASSUMPTIONS = ['schemas are compared as (field names, types, order, primary key): serialisation hints that file dumpers add by design (format, decimalChar, ...) are not part of the statement',
                    'dumped csv/json files are decoded with the stdlib only and compared by resource list, row count and provenance-id sequence (typed round-trip is C03)']
     REAL_VS_STUB = {'real': ['all dataflows code'], 'stub': ['printer: header_print/table_print callbacks and a recording wrapper around the module-global tabulate']}
-    PROBES = ['suffix-deletes-resource', 'suffix-filters-rows', 'suffix-joins', 'suffix-concatenates', 'observer-first', 'observer-last', 'empty-resource-at-observer', 'printer-with-selection', 'second-dumper-downstream', 'suffix-stops-pulling-early', 'run-fails-downstream-of-finalizer', 'suffix-inner-join-on-emptied-source'] + ['obs:' + o for o in OBS_KINDS]
+    PROBES = ['suffix-deletes-resource', 'suffix-filters-rows', 'suffix-joins', 'suffix-concatenates', 'observer-first', 'observer-last', 'empty-resource-at-observer', 'printer-with-selection', 'second-dumper-downstream', 'suffix-stops-pulling-early', 'run-fails-downstream-of-finalizer', 'suffix-inner-join-on-emptied-source', 'filehash-dump-with-identical-resources'] + ['obs:' + o for o in OBS_KINDS]
     TIERS = {'quick': dict(runs=900, wall=100, run_wall=300),
              'thorough': dict(runs=25000, wall=1700, run_wall=600)}
     SHRINK_FROZEN = ('fields', 'gen_stats')
@@ -228,6 +242,8 @@ class C05(Prop):
             k = {'delete_resource': 'suffix-deletes-resource', 'filter_rows': 'suffix-filters-rows', 'join': 'suffix-joins', 'concatenate': 'suffix-concatenates'}.get(sp['step'])
             if k:
                 ctx.probe(k)
+        if (sc.get('gen_stats') or {}).get('motif:filehash-with-identical-resources'):
+            ctx.probe('filehash-dump-with-identical-resources')
         if (sc.get('gen_stats') or {}).get('motif:inner-join-on-emptied-source'):
             ctx.probe('suffix-inner-join-on-emptied-source')
         if any(sp['step'] in ('dump_to_path', 'dump_to_zip') for sp in sc['suffix']):
